@@ -71,6 +71,25 @@ def direct_oracle(c):
                 got_keys = [k for k, _ in r2['vals']]
                 if got_keys != sorted(keys, reverse=c['reverse']):
                     fails.append(('sort_by_dataset_keys', {'got': got_keys, 'want': sorted(keys, reverse=c['reverse'])}))
+        # a custom sort function (natural sort) without key function orders the example keys with IT
+        if c['dict'] and vals:
+            import re as _re
+
+            def natkey(k):
+                return [int(t) if t.isdigit() else t for t in _re.split(r'(\d+)', k)]
+
+            def natsorted(seq, reverse=False):
+                return sorted(seq, key=natkey, reverse=reverse)
+            nk = [f'utt{(i * 7) % 23}' for i in range(len(vals))]
+            ds2 = lazy_dataset.new(dict(zip(nk, examples)))
+            r3 = run_stream(lambda: ds2.sort(sort_fn=natsorted, reverse=c['reverse']).items(), conv=lambda x: x)
+            if r3['err'] is not None or [k for k, _ in r3['vals']] != natsorted(nk, reverse=c['reverse']):
+                fails.append(('sort_fn_by_dataset_keys', {'keys': nk, 'got': [k for k, _ in r3['vals']], 'want': natsorted(nk, reverse=c['reverse'])}))
+            r4 = run_stream(lambda: ds2.sort(keyf, sort_fn=natsorted, reverse=c['reverse']), conv=lambda x: x)
+            if r4['err'] is None:
+                ks4 = [keyf(e) for e in r4['vals']]
+                if ks4 != sorted(ks4, reverse=c['reverse']):
+                    fails.append(('sort_fn_with_key_fn', {'keys': ks4}))
         # groupby
         try:
             groups = ds.groupby(keyf)
